@@ -619,6 +619,10 @@ func (l *Lexer) consumeQuotedContent(q string, raw, unicode bool, name string, n
 	}
 
 	if noPanic {
+		// A truncated escape sequence may have advanced i past the end of input.
+		if l.pos+i > len(l.Buffer) {
+			i = len(l.Buffer) - l.pos
+		}
 		l.skipN(i)
 		return "", true
 	}
